@@ -423,7 +423,7 @@ func (s *Sorts) TypeInv(term string, t types.Type, depth int) []string {
 			out = append(out, fmt.Sprintf("(<= %s %s)", smtInt(lo), term), fmt.Sprintf("(<= %s %s)", term, smtInt(hi)))
 		}
 		if u.Info()&types.IsString != 0 {
-			out = append(out, fmt.Sprintf("(>= (gstr_len %s) 0)", term))
+			out = append(out, fmt.Sprintf("(>= (gstr_len %s) 0)", term), fmt.Sprintf("(< (gstr_len %s) 4611686018427387904)", term))
 		}
 	case *types.Struct:
 		if depth > 6 {
